@@ -237,8 +237,18 @@ func (x *Exec) posOf(instr ssa.Instruction) string {
 // ---------------------------------------------------------------- obligations
 
 func (x *Exec) oblige(s *State, kind, label string, goal *Term, instr ssa.Instruction, note string) {
-	if len(x.dry) > 0 || s.dead || goal.IsTrue() {
+	if len(x.dry) > 0 || s.dead {
 		return
+	}
+	if goal.IsTrue() {
+		// trivially true safety checks (constant indices into fresh arrays,
+		// non-nil allocations ...) are noise; contract-level obligations that
+		// simplify to true are kept and counted as discharged by the simplifier
+		switch kind {
+		case "post", "assert", "typestate", "inv-init", "inv-pres", "chaninv", "type-invariant", "pre":
+		default:
+			return
+		}
 	}
 	name := fmt.Sprintf("%s#%s:%s", fnDisplay(x.fn), kind, label)
 	o := &Oblig{Name: name, Kind: kind, Hyps: append([]*Term(nil), s.pc...), Goal: goal, Pos: x.posOf(instr), Trace: append([]int(nil), s.trace...), Note: note, Want: x.inputs}
